@@ -133,6 +133,20 @@ def observe(s: Sys, rng):
     return dict(reg=reg, total=total, dofs=dofs, owner=owner, proj=proj, rt=rt, errors=errors)
 
 
+def touch(s: Sys):
+    """Read-only lookups, as user code would do between create/remove calls; results are not judged here (the
+    final observation is), exceptions are ignored here and show up in the final observation if they persist."""
+    es = s.es
+    try:
+        vs = es.variables
+        if vs:
+            es.dofs_of(vs)
+            es.identify_dof(es.num_dofs() - 1) if es.num_dofs() > 0 else None
+            es.projection_to(vs[:1])
+    except Exception:  # noqa
+        pass
+
+
 def actions_for(ndt, ndom, max_vars):
     doms = fx.domains()
 
@@ -183,6 +197,7 @@ def run(ctx):
         s = Sys()
         for e in path:
             apply(s, e)
+            touch(s)   # lookups between the mutations are part of the history (a stale lookup cache must show)
         cases.append(observe(s, ctx.rng))
         paths.append(path)
         ctx.case(key=("state", n), nontrivial=len(g["nodes"][n - 1]["reg"]) >= 2)
@@ -210,6 +225,7 @@ def replay(ctx, body):
     s = Sys()
     for e in rec["history"]:
         apply(s, e)
+        touch(s)
     case = observe(s, ctx.rng)
     ctx.case(key="replay")
     ctx.sample(rec["history"])
